@@ -18,8 +18,10 @@ OUT="$DST/confirmation.txt"
 {
 echo "confirmed on $(date -u +%Y-%m-%dT%H:%MZ) against /repo HEAD $(git -C /repo rev-parse --short HEAD)"
 if (cd "$SCR/mut" && git init -q . && git apply --whitespace=nowarn "$DST/patch.diff"); then echo "patch: applies cleanly"; else echo "patch: DOES NOT APPLY"; rm -rf "$SCR"; exit 3; fi
-(cd "$SCR/clean" && PYTHONPATH="$SCR/clean/src" timeout 600 /venv/bin/python "$DST/demo.py" >"$SCR/demo_clean.out" 2>&1); echo "demo on unchanged tree: exit $? ($(tail -1 "$SCR/demo_clean.out" | cut -c1-120))"
-(cd "$SCR/mut" && PYTHONPATH="$SCR/mut/src" timeout 600 /venv/bin/python "$DST/demo.py" >"$SCR/demo_mut.out" 2>&1); echo "demo on changed tree:   exit $? ($(tail -1 "$SCR/demo_mut.out" | cut -c1-120))"
+# (the demonstrations were written to live in <tree>/seed/ and may look for <tree>/tests/data relative to themselves)
+mkdir -p "$SCR/clean/seed" "$SCR/mut/seed"; cp "$DST/demo.py" "$SCR/clean/seed/demo.py"; cp "$DST/demo.py" "$SCR/mut/seed/demo.py"
+(cd "$SCR/clean" && PYTHONPATH="$SCR/clean/src" timeout 600 /venv/bin/python seed/demo.py >"$SCR/demo_clean.out" 2>&1); echo "demo on unchanged tree: exit $? ($(tail -1 "$SCR/demo_clean.out" | cut -c1-120))"
+(cd "$SCR/mut" && PYTHONPATH="$SCR/mut/src" timeout 600 /venv/bin/python seed/demo.py >"$SCR/demo_mut.out" 2>&1); echo "demo on changed tree:   exit $? ($(tail -1 "$SCR/demo_mut.out" | cut -c1-120))"
 echo "repository suite with the change: $(PYTHONPATH="$SCR/mut/src" "$HERE/tools/baseline_off.sh" "$SCR/mut" 2>&1 | head -3 | tr '\n' ' ')"
 for PID in "$ID" $3 $4 $5; do
   VERIF_REPO="$SCR/mut" VERIF_EVIDENCE_DIR="$SCR/ev" VERIF_REPLAY_DIR="$SCR/replay" "$HERE/check" "$PID" quick >"$SCR/check.out" 2>&1
